@@ -21,6 +21,7 @@ import (
 	"io/fs"
 	"os"
 	"path/filepath"
+	"runtime"
 	"strconv"
 	"strings"
 	"sync"
@@ -68,6 +69,9 @@ func Getpid() int                 { return os.Getpid() }
 func TempDir() string             { return os.TempDir() }
 func Getenv(k string) string      { return os.Getenv(k) }
 
+// Died is the panic value of a goroutine killed at a step (Session.PanicAt).
+type Died struct{}
+
 // ErrCrashed is returned by every operation at and after the crash point.
 var ErrCrashed = errors.New("vos: process crashed (simulated)")
 
@@ -96,8 +100,10 @@ type Session struct {
 	CrashAfter int // -1: never; k: steps with index >= k are not performed
 	FailAt     int // -1: never; k: step k fails once
 	FailErr    syscall.Errno
-	FailShort  bool // a failing write first writes half of its data
-	WriteSplit int  // >1: a Write of at least that many bytes is performed as WriteSplit consecutive write steps
+	FailShort  bool   // a failing write first writes half of its data
+	PanicAt    int    // -1: never; k: the goroutine performing step k dies there (after half of the data for a write)
+	PanicMode  string // "panic" (panic(Died{})) or "goexit" (runtime.Goexit)
+	WriteSplit int    // >1: a Write of at least that many bytes is performed as WriteSplit consecutive write steps
 	Crashed    bool
 	nextFile   int
 
@@ -113,7 +119,7 @@ var (
 
 // Begin activates a session for every path below dir.
 func Begin(dir string) *Session {
-	s := &Session{Dir: filepath.Clean(dir), CrashAfter: -1, FailAt: -1}
+	s := &Session{Dir: filepath.Clean(dir), CrashAfter: -1, FailAt: -1, PanicAt: -1}
 	sessMu.Lock()
 	sessions = append(sessions, s)
 	sessMu.Unlock()
@@ -218,6 +224,21 @@ func (s *Session) doIdx(op, path, path2 string, n, file int, mut bool, perform f
 		s.Log = append(s.Log, st)
 		s.mu.Unlock()
 		return idx, 0, &os.PathError{Op: op, Path: path, Err: ErrCrashed}
+	}
+	if idx == s.PanicAt {
+		// the goroutine dies inside this operation; the process lives on, so deferred functions of
+		// the callers run and later steps are performed normally
+		st.Faulted = true
+		st.Err = "DIED-" + s.PanicMode
+		s.Log = append(s.Log, st)
+		s.mu.Unlock()
+		if short != nil {
+			short()
+		}
+		if s.PanicMode == "goexit" {
+			runtime.Goexit()
+		}
+		panic(Died{})
 	}
 	if idx == s.FailAt {
 		st.Faulted = true
